@@ -86,6 +86,8 @@ GEN_DESC = {"classes": [
     {"name": "G", "fields": [
         _f("name", "str", {"type": "Attribute", "required": True}),
         _f("extra", {"dict": 1}, {"type": "Attributes"}, default={"factory": "dict"}),
+        _f("nums", {"list": "int"}, {"type": "Element", "tokens": True}, **LIST),
+        _f("words", {"list": "str"}, {"type": "Attribute", "tokens": True}, **LIST),
         _f("content", {"list": "object"}, {"type": "Wildcard", "mixed": True}, **LIST),
         _f("tail", {"opt": "object"}, {"type": "Wildcard"}, **NONE),
     ]},
@@ -93,6 +95,8 @@ GEN_DESC = {"classes": [
 GEN_VALUE = {"obj": "G", "fields": [
     ["name", {"str": "n"}],
     ["extra", {"attrs": [["a", "1"], ["{urn:x}b", ""]]}],
+    ["nums", {"list": [{"int": 3}, {"int": -12}]}],
+    ["words", {"list": [{"str": "a"}, {"str": "é1"}]}],
     ["content", {"list": [
         {"any": {"qname": "{urn:o}w", "text": "t", "tail": None, "attrs": [["k", "v"]],
                  "children": [{"any": {"qname": "c", "text": None, "tail": None, "attrs": [], "children": []}}]}},
